@@ -352,6 +352,84 @@ fn count_declared(files: &[UnitsFile]) -> usize {
     }).sum::<usize>()).sum()
 }
 
+/// the declared unit entries of a stack, in the order the builder adds them
+fn declared_entries(files: &[UnitsFile]) -> Vec<&UnitEntry> {
+    let mut out = vec![];
+    for f in files {
+        for g in &f.quantity {
+            match &g.units {
+                None => {}
+                Some(Units::Unified(v)) => out.extend(v.iter()),
+                Some(Units::BySystem { metric, imperial, unspecified }) => { out.extend(metric.iter()); out.extend(imperial.iter()); out.extend(unspecified.iter()); }
+            }
+        }
+    }
+    out
+}
+
+/// The SI tables after all layers, by the property's reading of precedence: a later table goes before / after /
+/// replaces the earlier one (written independently of the model).
+fn joined_prefixes(files: &[UnitsFile], symbols: bool) -> Option<[Vec<String>; 6]> {
+    let mut acc: Option<[Vec<String>; 6]> = None;
+    for f in files {
+        let Some(si) = &f.si else { continue };
+        let t = if symbols { &si.symbol_prefixes } else { &si.prefixes };
+        let new: Option<[Vec<String>; 6]> = t.as_ref().map(|m| std::array::from_fn(|i| m[SIP[i]].clone()));
+        acc = match (acc, new) {
+            (None, x) => x,
+            (a, None) => a,
+            (Some(a), Some(b)) => Some(std::array::from_fn(|i| match si.precedence {
+                Precedence::Before => b[i].iter().chain(a[i].iter()).cloned().collect(),
+                Precedence::After => a[i].iter().chain(b[i].iter()).cloned().collect(),
+                Precedence::Override => b[i].clone(),
+            })),
+        };
+    }
+    acc
+}
+
+/// "every … SI-prefixed form resolves to exactly its unit": the 6 units generated for a unit marked `expand_si`
+/// carry exactly the prefixed forms of that unit's names and symbols (prefix tables joined by precedence), the scaled
+/// ratio, the same quantity and system — and each form resolves to it.
+fn oracle_si_forms(ctx: &mut Ctx, desc: &str, files: &[UnitsFile], c: &Converter) {
+    let entries = declared_entries(files);
+    let units: Vec<&Unit> = c.all_units().collect();
+    let bases: Vec<usize> = (0..entries.len()).filter(|i| entries[*i].expand_si).collect();
+    if bases.is_empty() { return; }
+    let mut fail = |ctx: &mut Ctx, m: String, sig: &str| ctx.oracle_fail(desc.to_string(), m, format!("c16:{sig}"));
+    if units.len() != entries.len() + 6 * bases.len() {
+        fail(ctx, format!("{} declared units, {} of them SI-expanded, but the converter has {} units", entries.len(), bases.len(), units.len()), "si-unit-count");
+        return;
+    }
+    let (Some(pre), Some(sym)) = (joined_prefixes(files, false), joined_prefixes(files, true)) else {
+        fail(ctx, "SI expansion succeeded although no layer gives both prefix tables".into(), "si-without-tables");
+        return;
+    };
+    ctx.count("si-forms:checked-stacks");
+    let scale = [1e3, 1e2, 1e1, 1e-1, 1e-2, 1e-3];
+    for (k, &bi) in bases.iter().enumerate() {
+        let base = units[bi];
+        for j in 0..6 {
+            let ci = entries.len() + 6 * k + j;
+            let child = units[ci];
+            let want_names: Vec<String> = pre[j].iter().flat_map(|p| base.names.iter().map(move |n| format!("{p}{n}"))).collect();
+            let want_syms: Vec<String> = sym[j].iter().flat_map(|p| base.symbols.iter().map(move |n| format!("{p}{n}"))).collect();
+            let got_names: Vec<String> = child.names.iter().map(|s| s.to_string()).collect();
+            let got_syms: Vec<String> = child.symbols.iter().map(|s| s.to_string()).collect();
+            if got_names != want_names { fail(ctx, format!("SI unit {ci} ({:?} of unit {bi}): names {got_names:?}, the prefixed forms are {want_names:?}", SIP[j]), "si-names"); }
+            if got_syms != want_syms { fail(ctx, format!("SI unit {ci} ({:?} of unit {bi}): symbols {got_syms:?}, the prefixed forms are {want_syms:?}", SIP[j]), "si-symbols"); }
+            let wr = base.ratio * scale[j];
+            if child.ratio.to_bits() != wr.to_bits() && !(child.ratio.is_nan() && wr.is_nan()) { fail(ctx, format!("SI unit {ci}: ratio {}, expected {} x {}", child.ratio, base.ratio, scale[j]), "si-ratio"); }
+            if child.physical_quantity != base.physical_quantity || child.system != base.system || (child.difference.to_bits() != base.difference.to_bits() && !(child.difference.is_nan() && base.difference.is_nan())) {
+                fail(ctx, format!("SI unit {ci}: quantity/system/difference differ from unit {bi}"), "si-kind");
+            }
+            for f in want_names.iter().chain(want_syms.iter()) {
+                match c.find_unit(f).and_then(|u| unit_pos(c, &u)) { Some(x) if x == ci => {}, other => fail(ctx, format!("prefixed form {f:?} resolves to {other:?}, its unit is {ci}"), "si-form-resolves") }
+            }
+        }
+    }
+}
+
 /// The property's oracle on a converter the implementation returned (public API only).
 fn oracle_converter(ctx: &mut Ctx, desc: &str, files: &[UnitsFile], c: &Converter, in_premise: bool) {
     let mut fail = |ctx: &mut Ctx, m: String, sig: &str| ctx.oracle_fail(desc.to_string(), m, format!("c16:{sig}"));
@@ -434,6 +512,7 @@ pub fn one_stack(ctx: &mut Ctx, files: Vec<UnitsFile>, family: &str) {
             }
             oracle_converter(ctx, &desc, &keep, c, in_premise);
             oracle_precedence(ctx, &desc, &keep, c);
+            oracle_si_forms(ctx, &desc, &keep, c);
         }
     }
 }
@@ -543,22 +622,26 @@ impl Gen {
         match self.rng.below(6) { 0 => base, 1 => base * 10.0, 2 => 1.0, 3 => (self.rng.below(2000) + 1) as f64 / 8.0, 4 => base, _ => 10f64.powi(self.rng.range(-3, 4) as i32) }
     }
     fn si(&mut self, full: bool) -> SI {
+        // a later table that overrides must be complete, or every expansion fails
+        let p = if full || self.rng.chance(1, 5) { self.prec() } else { *self.rng.pick(&[Precedence::Before, Precedence::After]) };
+        let layered = !full;
+        let full = full || p == Precedence::Override;
         let names = ["kilo", "hecto", "deca", "deci", "centi", "milli"];
         let syms = ["k", "h", "da", "d", "c", "m"];
         let mut pre: [Vec<String>; 6] = Default::default();
         let mut sym: [Vec<String>; 6] = Default::default();
         for i in 0..6 {
-            let hole = if full { self.oops(2) } else { self.rng.chance(1, 4) };
-            let hole2 = if full { self.oops(2) } else { self.rng.chance(1, 4) };
-            if !hole { pre[i].push(names[i].to_string()); }
-            if !hole2 { sym[i].push(syms[i].to_string()); }
+            // tables of later layers: mostly extra prefixes (so that the joined table still expands every unit)
+            let hole = if full { self.oops(2) } else { self.rng.chance(1, 3) };
+            let hole2 = if full { self.oops(2) } else { self.rng.chance(1, 3) };
+            if !hole { pre[i].push(if !layered { names[i].to_string() } else { format!("{}{}", ["K", "H", "DA", "D", "C", "M"][i], &names[i][1..]) }); }
+            if !hole2 { sym[i].push(if !layered { syms[i].to_string() } else { format!("{}_", syms[i]) }); }
             if self.rng.chance(1, 8) { pre[i].push(["kil-", "hec-", "dca-", "dci-", "cen-", "mil-"][i].to_string()); }
             if self.rng.chance(1, 8) { sym[i].push(syms[i].to_uppercase()); }
             if self.oops(1) { let k = self.fresh(); sym[i].push(k); }
         }
         let with_pre = if full { !self.oops(3) } else { !self.rng.chance(1, 4) };
         let with_sym = if full { !self.oops(3) } else { !self.rng.chance(1, 4) };
-        let p = self.prec();
         si_from(pre, if with_sym { Some(sym) } else { None }, with_pre, p)
     }
     fn wrapper(&mut self) -> FractionsConfigWrapper {
@@ -730,7 +813,7 @@ impl Gen {
         }
         UnitsFile {
             default_system: if self.rng.chance(1, 3) { Some(*self.rng.pick(&[System::Metric, System::Imperial])) } else { None },
-            si: if self.rng.chance(1, 6) { Some(self.si(false)) } else { None },
+            si: if self.rng.chance(1, 3) { Some(self.si(false)) } else { None },
             fractions: if self.rng.chance(1, 3) { Some(self.fractions()) } else { None },
             extend: if self.rng.chance(3, 4) { Some(self.extend(bad)) } else { None },
             quantity,
@@ -825,6 +908,18 @@ non-trivial = the build returned a converter (or panicked); distinct = distinct 
             }
             if let Some(sp) = &spanish {
                 one_stack(ctx, vec![sh.clone(), sp.clone()], "units.toml+spanish.toml");
+                // the layer file shipped as the example of an extension of the bundled units is a valid layer
+                match build_impl(vec![sh.clone(), sp.clone()]) {
+                    Built::Ok(c) => {
+                        let want: [(&str, &str); 4] = [("litro", "liter"), ("kilo", "kg"), ("día", "d"), ("mililitro", "ml")];
+                        for (es, en) in want {
+                            let (a, b) = (c.find_unit(es).and_then(|u| unit_pos(&c, &u)), c.find_unit(en).and_then(|u| unit_pos(&c, &u)));
+                            if a.is_none() || a != b { ctx.oracle_fail("units.toml + units/spanish.toml".into(), format!("{es:?} resolves to unit {a:?}, {en:?} to unit {b:?}"), "c16:shipped-layer-names".into()); }
+                        }
+                    }
+                    Built::Err(e) => ctx.oracle_fail("units.toml + units/spanish.toml".into(), format!("the shipped extension layer is rejected: {e}"), "c16:shipped-layer-rejected".into()),
+                    Built::Panic(p) => ctx.oracle_fail("units.toml + units/spanish.toml".into(), format!("panic {p}"), panic_signature(&p)),
+                }
                 one_stack(ctx, vec![UnitsFile::bundled(), sp.clone(), sp.clone()], "units.toml+spanish.toml twice");
             } else { ctx.count("spanish-unreadable"); }
         }
